@@ -145,4 +145,39 @@ def interCount {α : Type} [DecidableEq α] (l r : List α) : Nat :=
 /-- `len(set(l))` -/
 def setLen {α : Type} [DecidableEq α] (l : List α) : Nat := (dedup l).length
 
+/-! ### Python equality of cells (pandas `unique()` / `nunique()`), used by key validation and the profiler -/
+
+/-- the numeric value of a cell as Python compares it: ints and finite floats by their exact value, bools as
+    `True = 1`, `False = 0` (the harness encodes a bool cell as `.other "bool:True"` / `.other "bool:False"`);
+    strings, missing values, infinities and other objects are not numbers -/
+def Cell.numVal? : Cell → Option Rat
+  | .int i => some (i : Rat)
+  | .flt q => some q
+  | .other t => if t == "bool:True" then some 1 else if t == "bool:False" then some 0 else none
+  | _ => none
+
+/-- Python `==` between two present cells, the equality under which pandas' `unique()` / `nunique()` (a hash table
+    keyed by `hash` and `==`) identifies values — for object columns and for numeric dtypes alike:
+    numbers compare by exact value across int / float / bool (`1 == 1.0 == True`, `2**53 + 1 != float(2**53)`),
+    everything else only with itself (`'1' != 1`; `inf == inf`; opaque objects by their canonical tag) -/
+def Cell.pyEq (a b : Cell) : Bool :=
+  match a, b with
+  | .int i, .int j => i == j          -- (the two frequent cases first: no rational arithmetic needed)
+  | .str s, .str t => s == t
+  | _, _ =>
+    match a.numVal?, b.numVal? with
+    | some x, some y => x == y
+    | none, none => a == b
+    | _, _ => false
+
 end SSJ
+
+namespace SSJ.Profiler
+open SSJ
+
+/-- the distinct elements of `l` under the equality `eq`, as a hash table keyed by `eq` collects them: an element is
+    added unless an equal one is already there (only the number of elements is used) -/
+def dedupBy {α : Type} (eq : α → α → Bool) (l : List α) : List α :=
+  l.foldl (fun acc a => if acc.any (fun b => eq b a) then acc else a :: acc) []
+
+end SSJ.Profiler
